@@ -324,3 +324,10 @@ Definition kruskal_calls (i : kinput) (root : Z) (calls : nat) : option ktree :=
   | None => None
   | Some t => Some (again (calls - 1) (fun acc => krecompute kr_resets acc t) t)
   end.
+
+(* ------------------------------------------------------------------ an object built WITHOUT its optional arguments *)
+(* the configuration it runs with: no exclusion set, no avoid_boundary - provided the defaults in the signatures are
+   None / False and no default is a mutable object shared between calls (then the configuration would depend on what
+   earlier callers did to it: not a function of the call) *)
+Definition default_cfg (k : kind) (polyline : bool) : option cfg :=
+  if ctor_defaults_immutable && exclusion_defaults_are_none then Some (mkCfg k false false polyline) else None.
